@@ -35,29 +35,37 @@ def iterFrom {V} (items : List (Bytes × V)) (start : Bytes) (reverse : Bool) : 
     | [_] => .panic "getIterator: itr.Key() on exhausted iterator"
     | _ :: e2 :: _ => .ok (items.filter (fun e => Bytes.lt e.1 e2.1)).reverse
 
+/-- The key branch of `Paginate` (`len(key) != 0`): `limit` entries from the iterator, `next_key` = key of
+the following one. -/
+def pageByKey {V} (items : List (Bytes × V)) (key : Bytes) (reverse : Bool) (limit : Nat) :
+    Outcome (List (Bytes × V) × PageResponse) :=
+  match iterFrom items key reverse with
+  | .ok it => .ok (it.take limit, { nextKey := match it[limit]? with | some e => e.1 | none => [], total := 0 })
+  | .err c => .err c
+  | .panic s => .panic s
+
+/-- The offset branch: 1-based `count`; entries with `offset < count ≤ end` where `end := offset + limit`
+in `uint64`; `next_key` is the entry with `count = end + 1` if the loop reaches it. -/
+def pageByOffset {V} (items : List (Bytes × V)) (offset limit : Nat) (countTotal reverse : Bool) :
+    Outcome (List (Bytes × V) × PageResponse) :=
+  match iterFrom items [] reverse with
+  | .ok it =>
+    let endp := wrap64 (offset + limit)
+    let res := (it.drop offset).take (endp - offset)
+    let next : Bytes :=
+      if endp + 1 < 18446744073709551616 ∧ offset < endp + 1 then
+        match it[endp]? with | some e => e.1 | none => []
+      else []
+    .ok (res, { nextKey := next, total := if countTotal then it.length else 0 })
+  | .err c => .err c
+  | .panic s => .panic s
+
 /-- Result of `Paginate`: the entries handed to `onResult`, in order, and the page response. -/
 def paginate {V} (items : List (Bytes × V)) (req : PageRequest) : Outcome (List (Bytes × V) × PageResponse) :=
   if req.offset > 0 ∧ req.key ≠ [] then .err "offset-and-key" else
   let limit := if req.limit = 0 then defaultLimit else req.limit
   let countTotal := if req.limit = 0 then true else req.countTotal
-  if req.key ≠ [] then
-    match iterFrom items req.key req.reverse with
-    | .ok it =>
-      .ok (it.take limit, { nextKey := match it[limit]? with | some e => e.1 | none => [] , total := 0 })
-    | .err c => .err c
-    | .panic s => .panic s
-  else
-    match iterFrom items [] req.reverse with
-    | .ok it =>
-      let endp := wrap64 (req.offset + limit)
-      -- positions are 1-based `count`; entry at index i has count i+1
-      let res := (it.drop req.offset).take (endp - req.offset)
-      let next : Bytes :=
-        if endp + 1 < 18446744073709551616 ∧ req.offset < endp + 1 then
-          match it[endp]? with | some e => e.1 | none => []
-        else []
-      .ok (res, { nextKey := next, total := if countTotal then it.length else 0 })
-    | .err c => .err c
-    | .panic s => .panic s
+  if req.key ≠ [] then pageByKey items req.key req.reverse limit
+  else pageByOffset items req.offset limit countTotal req.reverse
 
 end Panacea.Paginate
